@@ -795,3 +795,44 @@ def b_observer_msgs(tier, rnd):
         params = dict((k, (i + 1) * 7 + m) for i, k in enumerate(keys))
         cases.append((_rec_observer(), m, params))
     return {"rule": "message numbers -1..15 with all parameter keys present and distinct values", "cases": cases}
+
+
+# ---------------------------------------------------------------- tunings
+def _tunings(tier):
+    from mingus.extra import tunings
+    out = []
+    for i in tunings._known.values():
+        for t in i[1].values():
+            out.append(t)
+    out.append(tunings.StringTuning("test", "one string", ["A-3"]))
+    out.append(tunings.StringTuning("test", "courses", [["E-3", "E-4"], "A-3", ["D-4", "D-5"]]))
+    return out
+
+
+@battery("tuning_note")
+def b_tuning_note(tier, rnd):
+    from mingus.containers.note import Note
+    notes = [Note().from_int(i) for i in (range(0, 128, 3) if tier == "quick" else range(128))] + \
+            [Note("Cb", 4), Note("B#", 3), Note("Ebb", 2), Note("F##", 5)]
+    return {"rule": "all registered tunings (+2 synthetic) x notes 0..127 (step 3 in quick) + 4 exotic spellings x maxfret {0, 5, 24}",
+            "cases": [(t, n, m) for t in _tunings(tier) for n in notes for m in (0, 5, 24)]}
+
+
+@battery("tuning_string_fret")
+def b_tuning_string_fret(tier, rnd):
+    return {"rule": "all registered tunings x strings -1..6 x frets {-1,0,1,12,24,25} x maxfret {12, 24}",
+            "cases": [(t, s, f, m) for t in _tunings(tier) for s in range(-1, 7) for f in (-1, 0, 1, 12, 24, 25)
+                      for m in (12, 24)]}
+
+
+@battery("tuning_only")
+def b_tuning_only(tier, rnd):
+    return {"rule": "all registered tunings (+2 synthetic)", "cases": [(t,) for t in _tunings(tier)]}
+
+
+@battery("ly_notes")
+def b_ly_notes(tier, rnd):
+    from mingus.containers.note import Note
+    return {"rule": "Notes: names with <= 3 accidentals (all orderings) x octaves 0..9 x process_octaves x standalone",
+            "cases": [(Note(n, o), p, s) for n in all_names(3) for o in range(10) for p in (True, False)
+                      for s in (True, False)]}
